@@ -25,7 +25,7 @@ by ScaleLemma of the spec the truth of degree-one relations does not change).
 the right-hand value TLC emitted -- a guard on the renderer (machinery failure if it disagrees),
 never an expected value.
 """
-import os, concurrent.futures as cf
+import os, concurrent.futures as cf, multiprocessing
 from harness.tlc import run_tlc, TLCError
 
 FILL = 7777.0          # filler for positions that do not belong to a spec variable
@@ -166,27 +166,37 @@ def huge_schemes(n):
 
 
 # ------------------------------------------------------------------------------------------------
-def run_parts(module, cfg, parts=1, jobs=1, timeout=3000, heap="3g"):
-    """run module/cfg in `parts` TLC processes (systems n with n % parts == offset), at most `jobs`
-    at a time; returns (header, cases, [TLCResult...])"""
-    def one(off):
-        return run_tlc(module, cfg=cfg, workers=1, env={"STRIDE": parts, "OFFSET": off}, timeout=timeout, heap=heap)
-    if parts == 1:
-        res = [run_tlc(module, cfg=cfg, workers=1, timeout=timeout, heap=heap)]
-    else:
-        with cf.ThreadPoolExecutor(max_workers=max(1, min(jobs, parts))) as ex:
-            res = list(ex.map(one, range(parts)))
-    hdr, cases = None, []
-    for r in res:
-        pr = r.printed
-        if not pr or not isinstance(pr[0], dict) or not pr[0].get("hdr"):
-            raise TLCError("no header line from %s/%s:\n%s" % (module, cfg, r.out[-2000:]))
+def run_many(runs, jobs=4, timeout=6000, heap="3g"):
+    """runs = [(name, module, cfg, parts)]; all partitions of all runs share one pool of `jobs` TLC
+    processes; returns [(name, hdr, cases, [TLCResult...])] in the order given"""
+    tasks = [(ri, off) for ri, (_, _, _, parts) in enumerate(runs) for off in range(parts)]
+
+    def one(t):
+        ri, off = t
+        _, mod, cfg, parts = runs[ri]
+        env = {"STRIDE": parts, "OFFSET": off} if parts > 1 else None
+        return run_tlc(mod, cfg=cfg, workers=1, env=env, timeout=timeout, heap=heap)
+    with cf.ThreadPoolExecutor(max_workers=max(1, jobs)) as ex:
+        results = list(ex.map(one, tasks))
+    out = []
+    for ri, (name, mod, cfg, parts) in enumerate(runs):
+        res = [r for (t, r) in zip(tasks, results) if t[0] == ri]
+        hdr, cases = None, []
+        for r in res:
+            pr = r.printed
+            if r.violated and (not pr or not isinstance(pr[0], dict)):
+                continue
+            if not pr or not isinstance(pr[0], dict) or not pr[0].get("hdr"):
+                raise TLCError("no header line from %s/%s:\n%s" % (mod, cfg, r.out[-2000:]))
+            if hdr is None:
+                hdr = pr[0]
+            elif pr[0]["rels"] != hdr["rels"] or pr[0]["boxes"] != hdr["boxes"]:
+                raise TLCError("partitions of %s/%s disagree on the catalogue" % (mod, cfg))
+            cases.extend(pr[1:])
         if hdr is None:
-            hdr = pr[0]
-        elif pr[0]["rels"] != hdr["rels"] or pr[0]["boxes"] != hdr["boxes"]:
-            raise TLCError("partitions of %s/%s disagree on the catalogue" % (module, cfg))
-        cases.extend(pr[1:])
-    return hdr, cases, res
+            raise TLCError("no output from %s/%s" % (mod, cfg))
+        out.append((name, hdr, cases, res))
+    return out
 
 
 def merged(results):
@@ -200,3 +210,86 @@ def first_violation(results):
         if r.violated:
             return r
     return None
+
+
+# ------------------------------------------------------------------------------------------------
+# replay in several processes (fork: the children see the parent's imported -- possibly mutated -- mystic)
+class Collector(object):
+    """what a replay worker needs of harness.core.Check; merged into the real Check by merge_into"""
+    def __init__(self):
+        self.evals, self.keys, self.traces, self.samples, self.viol = 0, set(), 0, [], {}
+
+    def case(self, nontrivial=False, key=None, n=1):
+        self.evals += n
+        if nontrivial:
+            self.keys.add(key)
+
+    def trace(self, n=1):
+        self.traces += n
+
+    def sample(self, obj, limit=6):
+        if len(self.samples) < 2:
+            self.samples.append(obj)
+
+    def violation(self, key, detail, what=""):
+        e = self.viol.setdefault(key, [0, []])
+        e[0] += 1
+        if len(e[1]) < 2:
+            e[1].append((detail, what))
+        return True
+
+    def dump(self):
+        return {"evals": self.evals, "nontriv": len(self.keys), "traces": self.traces, "samples": self.samples, "viol": self.viol}
+
+
+def merge_into(ck, d):
+    from harness.core import jsonable
+    ck.evaluations += d["evals"]
+    ck.nontrivial_anon += d["nontriv"]          # chunks partition the cases, so keys of different chunks are distinct
+    ck.traces += d["traces"]
+    for smp in d["samples"]:
+        ck.sample(smp)
+    for key in sorted(d["viol"]):
+        count, firsts = d["viol"][key]
+        for detail, what in firsts:
+            ck.violation(key, detail, what)
+        rest = count - len(firsts)
+        if rest > 0:
+            k = ck.match_known(key)
+            if k is not None:
+                ck.known_hits[k["key"]] = ck.known_hits.get(k["key"], 0) + rest
+            else:
+                ck.violations += rest
+                ck.viol_keys[key] = ck.viol_keys.get(key, 0) + rest
+
+
+_WORK = {}
+
+
+def _run_chunk(i):
+    col = Collector()
+    _WORK["fn"](col, _WORK["chunks"][i])
+    return col.dump()
+
+
+def parallel_replay(ck, fn, chunks, jobs):
+    """fn(collector, chunk) for every chunk, in up to `jobs` forked processes; results merged in chunk order"""
+    if jobs <= 1 or len(chunks) <= 1:
+        for ch in chunks:
+            col = Collector()
+            fn(col, ch)
+            merge_into(ck, col.dump())
+        return
+    _WORK["fn"], _WORK["chunks"] = fn, chunks
+    with multiprocessing.get_context("fork").Pool(min(jobs, len(chunks))) as pool:
+        for d in pool.map(_run_chunk, range(len(chunks)), chunksize=1):
+            merge_into(ck, d)
+    _WORK.clear()
+
+
+def chunked(cases, nchunks):
+    """contiguous slices (start index, cases) -- TLC emits all points of a system together, so the
+    per-text compile caches stay effective"""
+    n = len(cases)
+    size = max(1, -(-n // max(1, nchunks)))
+    return [(i, cases[i:i + size]) for i in range(0, n, size)]
